@@ -25,6 +25,8 @@ func propC05() *Property {
 			{ID: "R05.4", Floor: 6, Text: "server sessions: newSessionWithServerUserPolicy(isClient=false) and sends on readySessions only in onOpenSessionRequest; onOpenSessionRequest only called from RunEventLoop; a failed validateNewServerSessionSegment never reaches session creation or a returned segment", Run: r05_4},
 			{ID: "R05.6", Floor: 12, Text: "direction gate: validateServerSegmentDirection (applied to every datagram authenticated by discovery) returns nil only for protocols a client sends (openSessionRequest, closeSession*, *ClientToServer*); Session.input on a server passes only those, on a client only the server-to-client ones — evaluated by constant propagation for every protocol number 0..15", Run: r05_6},
 			{ID: "R05.7", Floor: 1, Text: "a TCP first segment authenticated against a user generation is accepted only if that generation is still the published one after discovery (a credential removed by a completed reload no longer opens a session)", Run: func(c *RC) { ruleRecheckGeneration(c) }},
+			{ID: "R05.8", Floor: 2, Text: "every SetUsers call publishes the new users: a retired credential does not survive a reload (shared with R07.8)", Run: ruleSetUsersPublishes},
+			{ID: "R05.9", Floor: 4, Text: "every datagram and every first stream segment is looked up in (and recorded by) the replay cache before any decryption, and a replay yields no segment (shared with R06.1, R06.2): observed traffic re-sent by a party without a credential creates nothing", Run: func(c *RC) { r06_1(c); r06_2(c) }},
 			{ID: "R05.5", Floor: 3, Text: "failure branches (stream: readOneSegment error in RunEventLoop; packet: undecryptable datagram, replay) call nothing that may write to the underlay connection before the next read", Run: r05_5},
 		},
 	}
